@@ -51,6 +51,9 @@ struct Strings {
     random: u64,
 }
 
+/// every ordered pair over a small hostile set (line endings, quotes, comment markers)
+const PAIR_CHARS: [char; 10] = ['\r', '\n', '\\', '"', '/', '*', ' ', 'a', '\t', '\u{85}'];
+
 fn check_string(out: &mut Out, t: &str, r: &mut Rng, embeddings: bool) {
     let q = quote(t);
     out.begin(|| q.clone());
@@ -76,9 +79,17 @@ impl Phase for Strings {
         "string literals: single characters, random strings, embeddings".into()
     }
     fn len(&self) -> u64 {
-        self.singles.len() as u64 + self.random
+        self.singles.len() as u64 + 100 + self.random
     }
     fn run(&mut self, idx: u64, r: &mut Rng, out: &mut Out) {
+        if (idx as usize) >= self.singles.len() && (idx as usize) < self.singles.len() + 100 {
+            let k = idx as usize - self.singles.len();
+            let t: String = [PAIR_CHARS[k / 10], PAIR_CHARS[k % 10]].iter().collect();
+            check_string(out, &t, r, true);
+            check_string(out, &format!("x{}y{}", t, t), r, false);
+            out.count("two-character strings");
+            return;
+        }
         if (idx as usize) < self.singles.len() {
             let c = self.singles[idx as usize];
             let t = c.to_string();
@@ -94,6 +105,11 @@ impl Phase for Strings {
     }
 }
 
+const MULTI_ESCAPES: [&str; 22] = [
+    "\\u{41}", "\\u{D800}", "\\u{110000}", "\\u{}", "\\u{FFFFFFFF}", "\\u0041", "\\U00000041", "\\x41", "\\x", "\\101", "\\0", "\\n", "\\r\\n",
+    "\\t", "\\'", "\\{", "\\u{1F600}", "\\N{LATIN SMALL LETTER A}", "\\a", "\\e", "\\ ", "\\\n",
+];
+
 struct Escapes {
     chars: Vec<char>,
     random: u64,
@@ -104,9 +120,19 @@ impl Phase for Escapes {
         "escape sequences and truncated literals".into()
     }
     fn len(&self) -> u64 {
-        self.chars.len() as u64 + self.random
+        self.chars.len() as u64 + MULTI_ESCAPES.len() as u64 + self.random
     }
     fn run(&mut self, idx: u64, r: &mut Rng, out: &mut Out) {
+        if (idx as usize) >= self.chars.len() && ((idx as usize) - self.chars.len()) < MULTI_ESCAPES.len() {
+            // escape-like sequences other languages know: every one of them is an illegal escape here
+            let e = MULTI_ESCAPES[(idx as usize) - self.chars.len()];
+            let src = format!("\"a{}b\"", e);
+            out.begin(|| src.clone());
+            out.nontrivial(&src);
+            expect_error(out, "string/illegal-escape-accepted", &src);
+            out.count("multi-character escape-like sequences");
+            return;
+        }
         if (idx as usize) < self.chars.len() {
             // every one-character escape: only \" and \\ are legal
             let c = self.chars[idx as usize];
